@@ -16,12 +16,25 @@
 """
 Service exception handling (WMS exceptions, XML, in_image, etc.).
 """
+import re
 from html import escape
 
 from mapproxy.response import Response
 from mapproxy.template import template_loader
 import mapproxy.service
 get_template = template_loader(mapproxy.service.__package__, 'templates')
+
+
+_illegal_xml_chars = re.compile('[\x00-\x08\x0b\x0c\x0e-\x1f\ufffe\uffff]')
+
+
+def xml_text(msg):
+    """
+    Escape `msg` for use as character data in an XML document.
+    Characters that are not allowed in XML 1.0 (e.g. control characters
+    from request parameters) are removed.
+    """
+    return escape(_illegal_xml_chars.sub('', msg))
 
 
 class RequestError(Exception):
@@ -131,8 +144,8 @@ class XMLExceptionHandler(ExceptionHandler):
         else:
             status_code = self.status_codes.get(request_error.code, self.status_code)
 
-        # escape &<> in error message (e.g. URL params)
-        msg = escape(request_error.msg)
+        # escape &<> in error message (e.g. URL params), remove chars not allowed in XML
+        msg = xml_text(request_error.msg)
         result = self.template.substitute(exception=msg,
                                           code=request_error.code)
         return Response(result, mimetype=self.mimetype, content_type=self.content_type,
@@ -166,8 +179,8 @@ class OWSExceptionHandler(XMLExceptionHandler):
         else:
             status_code = self.status_codes.get(request_error.code, self.status_code)
 
-        # escape &<> in error message (e.g. URL params)
-        msg = escape(request_error.msg)
+        # escape &<> in error message (e.g. URL params), remove chars not allowed in XML
+        msg = xml_text(request_error.msg)
         result = self.template.substitute(exception=msg,
                                           code=request_error.code, locator=request_error.locator)
         return Response(result, mimetype=self.mimetype, content_type=self.content_type,
